@@ -211,6 +211,30 @@ CLAIMED["C11"] = dict(
     note=TRUST + "; the simulator's eci2ecef / lla2ecef as projection (themselves covered by C04); dates inside the 2014-2022 Earth-orientation table; poles excluded",
     engine="calendar")
 
+CLAIMED["C03"] = dict(
+    text=("Kinematics.tla models the propagation driver (propagate / propagateBulk, event preparation, restart after terminal events) "
+          "on an exactly integrable law; TLC checks Semigroup, BulkConsistent, ExactAtBoundaries and StepwiseEqualsRun over all call "
+          "splits, batches (K = 1..4) and output grids, and refutes them under the as-coded deviations. Every behaviour is replayed "
+          "through the real Celestial.propagate/propagateBulk on the exact law with the spec's integers as oracle, and on real TwoBody / "
+          "SpecialPerturbations x RK45 / DOP853 as relations: split vs unsplit, batch column vs single run, bulk output vs separate "
+          "call, epoch-shift twins incl. calendar boundaries, agreement with the repository's and an independent closed-form Kepler "
+          "solution, and TLC-validated conservation of energy and angular momentum (TraceKinematics.tla)."),
+    ref="5 C03", technique="TLA+ spec Kinematics.tla + TLC; spec->impl replay (exact-law oracle) and relations between implementation runs on real dynamics",
+    note=TRUST + "; scipy solve_ivp; reduced strength: real-dynamics numerics are relations between implementation runs within scaled integrator tolerances, no external truth for perturbed propagation",
+    engine="kinematics")
+CLAIMED["C15"] = dict(
+    text=("Kinematics.tla, checked exhaustively by TLC over all burn alignments (inside one step, spanning several, starting/ending "
+          "exactly on a boundary), step sizes and thrust kinds on a tick grid, specifies that a finite burn thrusts exactly on "
+          "[t_start, t_end) and delivers a*(t_end - t_start) (ThrustExactlyInterval, DeliveredDv; the as-coded deviations are refuted). "
+          "Every behaviour is replayed (a) through the real agent queue, prunePropagateEvents, Celestial.propagate and "
+          "ScheduledFiniteBurn/Maneuver on an exactly integrable law with the spec's integers as oracle (1e-9), including back-to-back "
+          "burns, a mid-burn impulse and burns starting at the scenario start, and (b) as real SpecialPerturbations scenarios with LEO, "
+          "MEO and GEO targets (burns added through the public config) compared with an independent twin integration that thrusts only "
+          "inside the spec's interval."),
+    ref="5 C15", technique="TLA+ spec Kinematics.tla + TLC exhaustive; spec->impl replay (exact law) and twin integration of real scenarios",
+    note=TRUST + "; scipy solve_ivp; the driver's own thrust and NTW model in the twin; tolerances 2e-6 km / 2e-8 km/s (dense-output restart residual); overlapping burns not decided",
+    engine="kinematics")
+
 NOT_APPLICABLE = {
     "C13": ("an explicit TLA+ specification cannot evaluate a degree-20 spherical-harmonic gradient or analytic ephemerides; "
             "the property IS equality with an independent numerical reference, which would be differential testing, a "
